@@ -177,20 +177,74 @@ func ruleOwnFieldDiscipline(c *Ctx, r *R) {
 			}
 		}
 		sort.Strings(names)
+		// private helper methods (s.advance()) are analysed with the states their callers actually reach them in, and are
+		// seen by their callers through summaries
+		helpers := map[*ssa.Function]bool{}
 		for _, mn := range names {
 			fn := meths[mn]
+			if token.IsExported(mn) {
+				continue
+			}
+			for _, site := range callSitesOf(c, fn) {
+				for _, m2 := range meths {
+					if site.Parent() == m2 || rootFn(site.Parent()) == m2 {
+						helpers[fn] = true
+					}
+				}
+			}
+		}
+		type result struct {
+			problems []string
+			ppos     token.Pos
+			touched  bool
+		}
+		results := map[string]*result{}
+		entries := map[*ssa.Function]StateSet{}
+		defEntry := ss(0, 2)
+		if wf.slice {
+			defEntry = ss(0)
+		}
+		var queue []string
+		for _, mn := range names {
+			if !helpers[meths[mn]] {
+				entries[meths[mn]] = defEntry
+				queue = append(queue, mn)
+			}
+		}
+		nameOfM := map[*ssa.Function]string{}
+		for _, mn := range names {
+			nameOfM[meths[mn]] = mn
+		}
+		for steps := 0; len(queue) > 0 && steps < 64; steps++ {
+			mn := queue[0]
+			queue = queue[1:]
+			fn := meths[mn]
 			key := wf.rel + "." + wf.typ + "." + mn + "|" + wf.field
+			_ = key
 			var problems []string
 			var ppos token.Pos
+			noting := true
 			note := func(in ssa.Instruction, msg string) {
+				if !noting {
+					return
+				}
 				problems = append(problems, msg)
 				if !ppos.IsValid() {
 					ppos = posOf(in)
 				}
 			}
 			touched := false
-			pf := &PF{N: 3}
+			pf := &PF{N: 3, InScope: func(f *ssa.Function) bool { return helpers[origin(f)] || helpers[f] }}
+			callEntries := map[*ssa.Function]StateSet{}
+			pf.Visit = func(f *ssa.Function, in ssa.Instruction, before StateSet) {
+				if call, ok := in.(*ssa.Call); ok {
+					if cal := staticCallee(&call.Call); cal != nil && (helpers[cal] || helpers[origin(cal)]) {
+						callEntries[origin(cal)] |= before
+					}
+				}
+			}
 			pf.Instr = func(f *ssa.Function, in ssa.Instruction, q int) (StateSet, bool) {
+				noting = f == fn // summaries of helpers are computed for hypothetical entry states: report only in the method itself
 				switch x := in.(type) {
 				case *ssa.Call:
 					cc := &x.Call
@@ -283,11 +337,8 @@ func ruleOwnFieldDiscipline(c *Ctx, r *R) {
 				}
 				return 0, false
 			}
-			// entry: the field may be live or nil
-			entry := ss(0, 2)
-			if wf.slice {
-				entry = ss(0)
-			}
+			// entry: the field may be live or nil (helpers: what their callers reach them with)
+			entry := entries[fn]
 			for _, e := range pf.Exits(fn, entry) {
 				if e.States.has(1) {
 					problems = append(problems, "a path returns with "+wf.field+" closed but still stored: "+wf.typ+".Close would close it a second time and the next call would use it after Close")
@@ -296,6 +347,24 @@ func ruleOwnFieldDiscipline(c *Ctx, r *R) {
 					}
 				}
 			}
+			results[mn] = &result{problems, ppos, touched}
+			for h, st := range callEntries {
+				if entries[h]|st != entries[h] {
+					entries[h] |= st
+					if hn, ok := nameOfM[h]; ok {
+						queue = append(queue, hn)
+					}
+				}
+			}
+		}
+		for _, mn := range names {
+			fn := meths[mn]
+			key := wf.rel + "." + wf.typ + "." + mn + "|" + wf.field
+			res := results[mn]
+			if res == nil {
+				continue // a helper that is never reached
+			}
+			problems, ppos, touched := res.problems, res.ppos, res.touched
 			if !touched {
 				continue // this method does not close, replace or drop the field: no obligation
 			}
